@@ -158,6 +158,10 @@ pub fn pinned(prop: &str) -> Vec<SProg> {
                 main.extend([Join(1), Join(2)]);
                 v.push(sp(vec![main, waiter(0), waiter(1)]));
             }
+            // a deadlock that needs a try_lock to FAIL (the thread parks for good only then)
+            v.push(sp(vec![vec![TryLock(0), SkipUnlessLast(0, 1), Park, Unlock(0)], vec![Lock(0), Unlock(0)]]));
+            v.push(sp(vec![vec![Lock(0), Unlock(0), Join(1)], vec![TryLock(0), SkipUnlessLast(0, 1), Park, Unlock(0)]]));
+            v.push(sp(vec![vec![TryWrite, SkipUnlessLast(0, 1), Recv, RwUnlock], vec![Read, RwUnlock]]));
             // the textbook predicate loop (`while counter < n { wait }`): such programs can always make progress, whoever
             // notifies, under the lock or after releasing it, in one round or two
             let round_unlocked = |note: SOp| vec![Lock(0), Incr(0), Unlock(0), note];
@@ -263,6 +267,13 @@ pub fn pinned(prop: &str) -> Vec<SProg> {
             v.push(sp(vec![vec![Lock(0), CellW(0), Unlock(0)], vec![Lock(0), CellW(0), Unlock(0)]]));
             v.push(sp(vec![vec![Write, CellW(0), RwUnlock], vec![Read, CellR(0), RwUnlock], vec![Read, CellR(0), RwUnlock]]));
             v.push(sp(vec![vec![TryLock(0), Unlock(0)], vec![Lock(0), AStore(0, 1), Unlock(0)]]));
+            // the unlock inside Condvar::wait is a release like any other: what the waiter wrote in the critical section
+            // that ends with the wait is visible to the next owner
+            for note in [NotifyOne, NotifyAll] {
+                v.push(sp(vec![vec![Lock(0), CellW(0), CvWaitUntil(1), Unlock(0), Join(1)], vec![Lock(0), CellR(0), Incr(0), note, Unlock(0)]]));
+                v.push(sp(vec![vec![Lock(0), CellW(0), CvWaitUntil(1), CellR(0), Unlock(0), Join(1)], vec![Lock(0), CellW(0), Incr(0), Unlock(0), note]]));
+                v.push(sp(vec![vec![Lock(0), CellW(0), CvWaitUntil(2), Unlock(0), Join(1), Join(2)], vec![Lock(0), CellR(0), Incr(0), note, Unlock(0)], vec![Lock(0), CellR(0), Incr(0), note, Unlock(0)]]));
+            }
         }
         "C04" => {
             v.push(sp(vec![vec![CellW(0)], vec![CellW(0)]]));
